@@ -28,7 +28,7 @@ func TestC10_PubSub(t *testing.T) {
 		maxLives = 1
 		c.Excluded(findingLiveRace)
 	}
-	ev.Rapid("pubsub", ev.Pick(1000, 12000))
+	ev.Rapid("pubsub", ev.Pick(900, 12000))
 	rapid.Check(t, func(rt *rapid.T) {
 		p := drawPSCase(rt, maxOps, maxLives)
 		c.Case()
@@ -162,6 +162,20 @@ func TestReplay(t *testing.T) {
 			applyOutcome(c, o)
 			if o.key != "" {
 				c.Violation(o.key, o.what, lcReplay{Case: lc.Case, History: o.history})
+				t.Fatalf("VIOLATION-CANDIDATE key=%s: %s", o.key, o.what)
+			}
+		}
+	case "webhook-burst":
+		var r burstReplay
+		if err := json.Unmarshal(doc.Data, &r); err != nil {
+			t.Fatalf("bad replay data: %v", err)
+		}
+		for i := 0; i < 3; i++ {
+			c.Case()
+			o := runBurst(r.Case)
+			applyOutcome(c, o)
+			if o.key != "" {
+				c.Violation(o.key, o.what, burstReplay{Case: r.Case, History: o.history})
 				t.Fatalf("VIOLATION-CANDIDATE key=%s: %s", o.key, o.what)
 			}
 		}
